@@ -95,6 +95,32 @@ Theorem C05_select_forms :
      \/ ((forall m, In m others -> m_form m <> c) /\ select_match other forms c = other)).
 Proof. exact select_correct. Qed.
 
+(** parse-time selection: `$t(key, {"count": n})` resolved in locale [top] selects, for every CLDR oracle, rule type and
+    operand, exactly the form the generated `match` selects at run time for [top] (not for the default locale) *)
+Theorem C05_static_select :
+  forall (locale operand : Type) (cat : locale -> rule -> operand -> form) (top dflt : locale) (r : rule) (n : operand)
+         (others : list member) (other : N),
+    (forall m, In m others -> is_other m = false) ->
+    resolve_count_ref locale operand cat top dflt r other (build_forms others []) (CountLit n)
+    = SForm (select_match other (build_forms others []) (cat top r n)).
+Proof. exact static_select_correct. Qed.
+
+(** the same for the plural node merge_level produces for a merged key *)
+Theorem C05_static_select_level :
+  forall (locale operand : Type) (cat : locale -> rule -> operand -> form) is_key cats path ks out ws b,
+    NoDup (map fst ks) -> merge_level is_key cats path ks = ROk out ws -> mergeable ks b = true ->
+    exists r other forms,
+      mget b out = Some (PluralV r other forms) /\
+      forall (top dflt : locale) (n : operand),
+        resolve_count_ref locale operand cat top dflt r other forms (CountLit n)
+        = SForm (select_match other forms (cat top r n)).
+Proof. exact static_select_level. Qed.
+
+Theorem C05_static_other_args : forall (locale operand : Type) cat (top dflt : locale) r other forms k,
+  resolve_count_ref locale operand cat top dflt r other forms (CountVar k) = SRename k /\
+  resolve_count_ref locale operand cat top dflt r other forms CountInvalid = SInvalid top.
+Proof. exact static_select_other_args. Qed.
+
 (** non-vacuity: the repaired algorithm reports the conflict on the witness *)
 Example C05_witness : merge_level (fun _ => true) w_cats [] w_keys = RErr EConflict [w_x].
 Proof. exact new_model_witness. Qed.
